@@ -141,6 +141,7 @@ func runC03(c *core.Ctx) {
 	c20R5as(c, "C03.R7")
 	c03R8(c, "C03.R8")
 	c03R9(c, "C03.R9")
+	keyTextRule(c, "C03.R10")
 }
 
 // authorizerImpls returns the Authorize methods of production implementers of service.Authorizer.
